@@ -132,7 +132,12 @@ pub fn plan_for(seed: u64, run: u64) -> ProcPlan {
     let tool = if rng.chance(4, 5) { Tool::Predict } else { Tool::Evaluate };
     let model = gen_model(&mut rng, &ModelKnobs { max_window: 3, max_entries: 8, ..ModelKnobs::default() });
     let meta = tool == Tool::Predict && rng.chance(3, 10);
-    let n_lines = rng.range(0, 12);
+    // usually a handful of lines; sometimes enough to cross 64 / 256 records
+    let n_lines = match rng.below(40) {
+        0 => rng.range(60, 80),
+        1 => rng.range(250, 300),
+        _ => rng.range(0, 12),
+    };
     let lines: Vec<String> = match tool {
         Tool::Predict => (0..n_lines).map(|_| gen_line(&mut rng, meta)).collect(),
         Tool::Evaluate => (0..n_lines)
